@@ -226,6 +226,38 @@ def shape_several_shared_workers(modes, ntasks, optmask):
     return sh
 
 
+def class_context_shape(cname, role):
+    """C18's small problem plus one instance of a constraint class, declared plainly or only as an operand: the two
+    plain workers still serve one task at a time, the directly assigned tasks still occupy their worker for their
+    span, each selection still picks exactly one of its two workers"""
+    name = f"every_class/{cname}/{role}"
+
+    def build(P):
+        from checks import c01, c10, c18
+        pb = ps.SchedulingProblem(name="ctx", horizon=12)
+        e = c18._env()
+        c01.ROLES[role](lambda nm: c10._make_instance(cname, e, nm))
+        return Ctx(problem=pb, env=e, named={"sel1_SW": e["sel1"]._selection_dict[e["w"]], "sel2_SW": e["sel2"]._selection_dict[e["w"]]})
+
+    def obligations(ctx):
+        e = ctx.env
+        obs = []
+        for w in (e["w"], e["w2"]):
+            obs += capacity_obs(name, w, w.name)
+        for t in (e["t1"], e["t2"]):
+            bs, be = e["w"]._busy_intervals[t]
+            obs.append(Ob(f"{PROP}/{name}/busy_span_{t.name}", "sound", clause=And(bs == t._start, be == t._end)))
+        for sel in (e["sel1"], e["sel2"]):
+            obs.append(Ob(f"{PROP}/{name}/count_{sel.name[:12]}", "sound", clause=Sum([b2i(x) for x in sel._selection_dict.values()]) == 1))
+        for o in obs:
+            o.extra = dict(o.extra, vacuous_ok=True)  # a negated rule may simply contradict the rest of the problem
+        return obs
+
+    sh = Shape(name, build, obligations)
+    sh.grid = False
+    return sh
+
+
 def shape_twice(pattern):
     """One task requires the same worker through two requirements (directly and in a selection list, in two
     selection lists, twice the same cumulative worker). Either the model is rejected at creation (then there is
@@ -445,6 +477,12 @@ def shapes(tier):
     out.append(shape_select(3, "min", 1, ("fixed", "fixed"), (False, False), cumul_in_list=True))
     for nt, m in ((2, (False, False)), (3, (False, False, False)), (3, (True, False, False))) + (((4, (False,) * 4),) if thorough else ()):
         out.append(shape_cumulative_in_lists(nt, m))
+    from checks import c01 as _c01, c05 as _c05
+    for cname in _c05._constraint_classes():
+        for role in (_c01.ROLES if thorough else ("negated", "alternative")):
+            if role != "plain" and cname == "ForceApplyNOptionalConstraints":
+                continue
+            out.append(class_context_shape(cname, role))
     mode_lists = [("delayed", "static"), ("static", "delayed"), ("dynamic", "static"), ("static", "dynamic"), ("static", "static"), ("delayed", "dynamic", "static")]
     if thorough:
         mode_lists += [m for m in itertools.product(("static", "delayed", "dynamic"), repeat=3) if m not in mode_lists]
